@@ -42,6 +42,14 @@ def atom(a):
     if kind == "phi":
         z = float(frac(a[1])) / math.sqrt(frac(a[2]))
         return math.exp(-0.5 * z * z) / math.sqrt(2.0 * math.pi)
+    if kind == "ln2sq":
+        return math.log(2.0) ** 2
+    if kind == "prod":
+        return atom(a[1]) * atom(a[2])
+    if kind == "isqrt":
+        return 1.0 / math.sqrt(frac(a[1]))
+    if kind == "pow":          # <<"pow", q, <<n, d>>>> = q^(n/d)
+        return float(frac(a[1])) ** float(frac(a[2]))
     raise ValueError("unknown atom " + repr(a))
 
 
